@@ -1003,7 +1003,7 @@ func runC16(s C16Scenario) pbt.Outcome {
 	if len(rep.Fired) > 0 {
 		classes["plan-fired"] = true
 	}
-	if rep.Hits["swamp:WaitForGracefulClose:2:select"] > 0 {
+	if rep.Hits["swamp:WaitForGracefulClose:select:3e8f84"] > 0 {
 		classes["request-waited-for-closing-swamp"] = true
 	}
 	out := pbt.Outcome{NonTrivial: nt}
@@ -1025,34 +1025,34 @@ func trunc(a []string, n int) []string {
 // generators
 
 var c16Sites = []string{
-	"swamp:startCloseListener:2:atomic.LoadInt64",
-	"swamp:startCloseListener:3:Lock",
-	"swamp:startCloseListener:6:atomic.LoadInt32",
-	"swamp:startWriteListener:5:atomic.LoadInt32",
-	"swamp:Close:1:Lock",
-	"swamp:Close:4:atomic.StoreInt32",
-	"swamp:Close:6:atomic.LoadInt32",
-	"swamp:Destroy:1:atomic.StoreInt32",
-	"swamp:Destroy:5:WaitForActiveVigilsClosed",
-	"swamp:Destroy:6:Lock",
-	"swamp:Destroy:7:atomic.LoadInt32",
-	"swamp:DeleteTreasure:2:CeaseVigil",
-	"swamp:CloneAndDeleteTreasuresByKeys:4:CeaseVigil",
-	"swamp:IsClosing:2:atomic.LoadInt32",
-	"swamp:WaitForGracefulClose:2:select",
-	"swamp:fileWriterHandler:1:Lock",
-	"swamp:SaveFunction:7:RUnlock",
-	"swamp:SaveFunction:11:RUnlock",
-	"gateway:Set:2:BeginVigil",
-	"gateway:Set:3:StartTreasureGuard",
-	"gateway:IncrementInt64:1:BeginVigil",
-	"gateway_patch:patchTreasuresOneSwamp:1:BeginVigil",
-	"gateway:Delete:1:BeginVigil",
-	"gateway:ShiftByKeys:1:BeginVigil",
-	"hydra:SummonSwamp:17:Store",
-	"hydra:closeEventCallbackFunction:1:Delete",
-	"vigil:BeginVigil:1:atomic.AddInt64",
-	"vigil:CeaseVigil:1:atomic.AddInt64",
+	"swamp:startCloseListener:atomic.LoadInt64:c7ae2e",
+	"swamp:startCloseListener:Lock:3e9e87",
+	"swamp:startCloseListener:atomic.LoadInt32:4b6da7",
+	"swamp:startWriteListener:atomic.LoadInt32:dde9f6",
+	"swamp:Close:Lock:e3ba16",
+	"swamp:Close:atomic.StoreInt32:cf5c57",
+	"swamp:Close:atomic.LoadInt32:a437c9",
+	"swamp:Destroy:atomic.StoreInt32:cf5c57",
+	"swamp:Destroy:WaitForActiveVigilsClosed:3a63ba",
+	"swamp:Destroy:Lock:aec636",
+	"swamp:Destroy:atomic.LoadInt32:a437c9",
+	"swamp:DeleteTreasure:CeaseVigil:513ed9",
+	"swamp:CloneAndDeleteTreasuresByKeys:CeaseVigil:513ed9",
+	"swamp:IsClosing:atomic.LoadInt32:302240",
+	"swamp:WaitForGracefulClose:select:3e8f84",
+	"swamp:fileWriterHandler:Lock:45b511",
+	"swamp:SaveFunction:RUnlock:a71ce7",
+	"swamp:SaveFunction:RUnlock:a71ce7~2",
+	"gateway:Set:BeginVigil:3b19eb",
+	"gateway:Set:StartTreasureGuard:490611",
+	"gateway:IncrementInt64:BeginVigil:b2973a",
+	"gateway_patch:patchTreasuresOneSwamp:BeginVigil:b2973a",
+	"gateway:Delete:BeginVigil:3b19eb",
+	"gateway:ShiftByKeys:BeginVigil:3b19eb",
+	"hydra:SummonSwamp:Store:93684c",
+	"hydra:closeEventCallbackFunction:Delete:d37bbd",
+	"vigil:BeginVigil:atomic.AddInt64:b99a82",
+	"vigil:CeaseVigil:atomic.AddInt64:102c0e",
 }
 
 func genC16Plan(t *rapid.T, max int, pauses bool) []vsched.Action {
@@ -1180,8 +1180,8 @@ func genC16(mode string, free bool) func(t *rapid.T) C16Scenario {
 			if rapid.Bool().Draw(t, "slowteardown") {
 				// keep the teardown in progress for a while so that requests really arrive while the instance is closing
 				us := rapid.SampledFrom([]int{500, 2000, 5000}).Draw(t, "teardownus")
-				s.Plan = append(s.Plan, vsched.Action{Site: "swamp:Close:6:atomic.LoadInt32", Hit: 0, Kind: "sleep", SleepUs: us},
-					vsched.Action{Site: "swamp:Destroy:6:Lock", Hit: 0, Kind: "sleep", SleepUs: us})
+				s.Plan = append(s.Plan, vsched.Action{Site: "swamp:Close:atomic.LoadInt32:a437c9", Hit: 0, Kind: "sleep", SleepUs: us},
+					vsched.Action{Site: "swamp:Destroy:Lock:aec636", Hit: 0, Kind: "sleep", SleepUs: us})
 			}
 		}
 		return s
@@ -1201,9 +1201,9 @@ func genC16WitnessDead(t *rapid.T) C16Scenario {
 	}
 	sw.Steps = append(sw.Steps, C16Step{Kind: "burst",
 		W:  []C16Writer{{Ops: []C16Op{{Kind: "set", Key: rapid.IntRange(0, 3).Draw(t, "key")}}}},
-		Ev: []C16Event{{Kind: kind, After: "site:gateway:Set:2:BeginVigil", Signal: "teardown-done"}}})
+		Ev: []C16Event{{Kind: kind, After: "site:gateway:Set:BeginVigil:3b19eb", Signal: "teardown-done"}}})
 	return C16Scenario{Mode: "fast", Free: true, Final: "close", Swamps: []C16Swamp{sw},
-		Plan: []vsched.Action{{Site: "gateway:Set:2:BeginVigil", Hit: 1, Kind: "pause", Until: "teardown-done", MaxWaitMs: 2000}}}
+		Plan: []vsched.Action{{Site: "gateway:Set:BeginVigil:3b19eb", Hit: 1, Kind: "pause", Until: "teardown-done", MaxWaitMs: 2000}}}
 }
 
 // a writer that holds its vigil while the last record is deleted: auto-destroy drains it, then removes the file with the writer's record
@@ -1213,9 +1213,9 @@ func genC16WitnessDrain(t *rapid.T) C16Scenario {
 	sw.Steps = append(sw.Steps, C16Step{Kind: "burst", W: []C16Writer{{Ops: []C16Op{{Kind: "inc"}, {Kind: "patch"}}}}})
 	sw.Steps = append(sw.Steps, C16Step{Kind: "burst",
 		W:  []C16Writer{{Ops: []C16Op{{Kind: "set", Key: rapid.IntRange(0, 3).Draw(t, "key")}}}},
-		Ev: []C16Event{{Kind: kind, After: "site:gateway:Set:3:StartTreasureGuard"}}})
+		Ev: []C16Event{{Kind: kind, After: "site:gateway:Set:StartTreasureGuard:490611"}}})
 	return C16Scenario{Mode: "fast", Free: true, Final: "close", Swamps: []C16Swamp{sw},
-		Plan: []vsched.Action{{Site: "gateway:Set:3:StartTreasureGuard", Hit: 1, Kind: "pause", Until: "site:swamp:Destroy:5:WaitForActiveVigilsClosed", MaxWaitMs: 2000}}}
+		Plan: []vsched.Action{{Site: "gateway:Set:StartTreasureGuard:490611", Hit: 1, Kind: "pause", Until: "site:swamp:Destroy:WaitForActiveVigilsClosed:3a63ba", MaxWaitMs: 2000}}}
 }
 
 // the REAL idle listener: it loads the last-interaction time, is delayed before taking its lock, a Set summons the swamp
@@ -1234,8 +1234,8 @@ func genC16WitnessIdle(t *rapid.T) C16Scenario {
 	return C16Scenario{Mode: "fast", Free: true, Final: "close", Swamps: []C16Swamp{sw},
 		Plan: []vsched.Action{
 			// third tick of the listener: it has loaded the stale interaction time and is held before taking its lock
-			{Site: "swamp:startCloseListener:3:Lock", Hit: 3, Kind: "pause", Until: "site:gateway:Set:2:BeginVigil", MaxWaitMs: 1500},
-			{Site: "gateway:Set:2:BeginVigil", Hit: 1, Kind: "pause", Until: "site:hydra:closeEventCallbackFunction:1:Delete", MaxWaitMs: 1500},
+			{Site: "swamp:startCloseListener:Lock:3e9e87", Hit: 3, Kind: "pause", Until: "site:gateway:Set:BeginVigil:3b19eb", MaxWaitMs: 1500},
+			{Site: "gateway:Set:BeginVigil:3b19eb", Hit: 1, Kind: "pause", Until: "site:hydra:closeEventCallbackFunction:Delete:d37bbd", MaxWaitMs: 1500},
 		}}
 }
 
@@ -1251,7 +1251,7 @@ func genC16WitnessMark(t *rapid.T) C16Scenario {
 			Ev: []C16Event{{Kind: "delkey", Key: key, After: "paused", Signal: "deleted"}}},
 		C16Step{Kind: "burst", W: []C16Writer{{Ops: []C16Op{{Kind: "set", Key: key}}}}}) // strictly later write
 	return C16Scenario{Mode: "fast", Free: true, Final: "close", Swamps: []C16Swamp{sw},
-		Plan: []vsched.Action{{Site: "gateway:Set:3:StartTreasureGuard", Hit: 2, Kind: "pause", Until: "deleted", MaxWaitMs: 2000}}}
+		Plan: []vsched.Action{{Site: "gateway:Set:StartTreasureGuard:490611", Hit: 2, Kind: "pause", Until: "deleted", MaxWaitMs: 2000}}}
 }
 
 // immediate-write mode: every save runs its own fileWriterHandler; a handler that has snapshotted the pending delete
@@ -1268,7 +1268,7 @@ func genC16WitnessOrder(t *rapid.T) C16Scenario {
 			{After: "paused", Ops: []C16Op{{Kind: "set", Key: key}, {Kind: "get", Key: key}}}, // re-creates the key, acknowledged, then releases the held handler
 		}})
 	return C16Scenario{Mode: "fast", Free: true, Final: "close", Swamps: []C16Swamp{sw},
-		Plan: []vsched.Action{{Site: "swamp:fileWriterHandler:5:Delete", Hit: 3, Kind: "pause", Until: "site:gateway:Get:2:BeginVigil", MaxWaitMs: 3000}}}
+		Plan: []vsched.Action{{Site: "swamp:fileWriterHandler:Delete:8d391f", Hit: 3, Kind: "pause", Until: "site:gateway:Get:BeginVigil:3b19eb", MaxWaitMs: 3000}}}
 }
 
 // ---------------------------------------------------------------------------
@@ -1306,8 +1306,8 @@ func c16CheckSites(t *testing.T) {
 	sw.injectClose()
 	sw.destroy()
 	rep := vsched.Deactivate()
-	requireSites(t, rep, "gateway:Set:2:BeginVigil", "gateway:Set:3:StartTreasureGuard", "gateway:Delete:1:BeginVigil", "swamp:Close:6:atomic.LoadInt32",
-		"swamp:Destroy:5:WaitForActiveVigilsClosed", "swamp:Destroy:6:Lock", "hydra:closeEventCallbackFunction:1:Delete", "swamp:DeleteTreasure:2:CeaseVigil")
+	requireSites(t, rep, "gateway:Set:BeginVigil:3b19eb", "gateway:Set:StartTreasureGuard:490611", "gateway:Delete:BeginVigil:3b19eb", "swamp:Close:atomic.LoadInt32:a437c9",
+		"swamp:Destroy:WaitForActiveVigilsClosed:3a63ba", "swamp:Destroy:Lock:aec636", "hydra:closeEventCallbackFunction:Delete:d37bbd", "swamp:DeleteTreasure:CeaseVigil:513ed9")
 }
 
 func TestC16Main(t *testing.T) {
